@@ -102,13 +102,15 @@ Qed.
 
 Lemma sent_value_was_put_gen seen l r i x :
   log_ok_from persistent seen l = true -> persistent i = true -> In (LSentV r i x) l ->
-  exists l1 l2, l = l1 ++ LSentV r i x :: l2 /\ In x (puts i (seen ++ l1)).
+  exists l1 l2, l = l1 ++ LSentV r i x :: l2 /\
+    (In x (puts i (seen ++ l1)) \/ (x = 0%Z /\ puts i (seen ++ l1) = [])).
 Proof.
   revert seen. induction l as [|e l IH]; intros seen H Hp Hin; [contradiction|].
   cbn [log_ok_from] in H. apply andb_prop in H. destruct H as [He Hl].
   destruct Hin as [->|Hin].
   - exists [], l. split; [reflexivity|]. rewrite app_nil_r. rewrite Hp in He. cbn [negb orb] in He.
-    now apply existsb_Zeqb.
+    apply orb_prop in He. destruct He as [He|He]; [left; now apply existsb_Zeqb|right].
+    destruct (puts i seen); [|discriminate]. apply Z.eqb_eq in He. auto.
   - destruct (IH _ Hl Hp Hin) as (l1 & l2 & -> & Hx). exists (e :: l1), l2. split; [reflexivity|].
     now rewrite <- app_assoc in Hx.
 Qed.
@@ -131,12 +133,14 @@ Qed.
 Theorem restart_never_older_value l n r i x :
   log_ok persistent l = true -> persistent i = true -> no_delete i l ->
   In (LSentV r i x) (firstn n l) ->
-  exists before after,
-    puts i (firstn n l) = before ++ x :: after /\
-    restored_value (replay (firstn n l)) i = last (x :: after) 0%Z.
+  (exists before after,
+     puts i (firstn n l) = before ++ x :: after /\
+     restored_value (replay (firstn n l)) i = last (x :: after) 0%Z)
+  \/ x = 0%Z.                     (* the default state, which nothing restored can be older than *)
 Proof.
   intros Hok Hp Hd Hin. apply (log_ok_prefix n) in Hok.
-  destruct (sent_value_was_put_gen [] _ _ _ _ Hok Hp Hin) as (l1 & l2 & E & Hx). cbn [app] in Hx.
+  destruct (sent_value_was_put_gen [] _ _ _ _ Hok Hp Hin) as (l1 & l2 & E & [Hx|[Hx _]]); [|now right].
+  left. cbn [app] in Hx.
   apply in_split in Hx. destruct Hx as (b & a & Hb).
   assert (Hputs : puts i (firstn n l) = b ++ x :: (a ++ puts i (LSentV r i x :: l2))).
   { rewrite E, puts_app, Hb, <- app_assoc. reflexivity. }
@@ -243,7 +247,7 @@ Proof.
     + rewrite log_ok_snoc, Hl. cbn [andb log_ok_from]. rewrite andb_true_r. unfold entry_of. cbn [fst snd].
       destruct (persistent i) eqn:Hp.
       * specialize (Hq _ _ _ Hin Hp). destruct p; rewrite Hp; cbn [negb orb].
-        -- now apply In_existsb_Z.
+        -- rewrite In_existsb_Z by exact Hq. reflexivity.
         -- now apply In_existsb_mop.
       * destruct p; rewrite Hp; reflexivity.
     + intros r' j q Hq' Hj. cbn [w_log w_queue] in *. specialize (Hq _ _ _ (Hsub _ Hq') Hj).
